@@ -16,15 +16,13 @@ DISPATCH = M + 'find_closest_element_indices_to_values'
 # ---------------------------------------------------------------- specification functions
 
 def spec_lower(x, v, r, fill):
-    return ite(v < x[0],
-               r == (0 if fill else -1),
-               0 <= r and r < len(x) and x[r] <= v and forall(range(len(x)), lambda i: implies(x[i] <= v, i <= r)))
+    return ((r == (0 if fill else -1)) if v < x[0] else
+            (0 <= r and r < len(x) and x[r] <= v and forall(range(len(x)), lambda i: implies(x[i] <= v, i <= r))))
 
 
 def spec_higher(x, v, r, fill):
-    return ite(v > x[len(x) - 1],
-               r == ((len(x) - 1) if fill else len(x)),
-               0 <= r and r < len(x) and x[r] >= v and forall(range(len(x)), lambda i: implies(x[i] >= v, i >= r)))
+    return ((r == ((len(x) - 1) if fill else len(x))) if v > x[len(x) - 1] else
+            (0 <= r and r < len(x) and x[r] >= v and forall(range(len(x)), lambda i: implies(x[i] >= v, i >= r))))
 
 
 def spec_closest(x, v, r):
@@ -241,6 +239,6 @@ def dispatch_unknown(x, lookup, strategy, fill_not_valid):
 def dispatch_post(x, lookup, strategy, fill_not_valid, result):
     return (len(result) == len(lookup) and is_ndarray(result)
             and forall(range(len(lookup)), lambda j:
-                       ite(strategy == 'closest', spec_closest(x, lookup[j], result[j]),
-                           ite(strategy == 'lower', spec_lower(x, lookup[j], result[j], fill_not_valid),
-                               spec_higher(x, lookup[j], result[j], fill_not_valid)))))
+                       spec_closest(x, lookup[j], result[j]) if strategy == 'closest' else
+                       (spec_lower(x, lookup[j], result[j], fill_not_valid) if strategy == 'lower' else
+                        spec_higher(x, lookup[j], result[j], fill_not_valid))))
